@@ -130,10 +130,12 @@ Proof.
   intros [H1 H2] [H3 _]. split; [|exact H2]. cbn [extend_range i_e]. lia.
 Qed.
 
-(* canonical predicate per result type *)
-Class Bd (A : Type) := bd : nat -> A -> Prop.
+End Bound.
 
-Definition trivB {A} : nat -> A -> Prop := fun _ _ => True.
+(* canonical predicate per result type (first argument: the bound M) *)
+Class Bd (A : Type) := bd : nat -> nat -> A -> Prop.
+
+Definition trivB {A} : nat -> nat -> A -> Prop := fun _ _ _ => True.
 
 #[global] Instance bd_ident : Bd ident := IdB.
 #[global] Instance bd_intlit : Bd intlit := IntlitB.
@@ -153,12 +155,11 @@ Definition trivB {A} : nat -> A -> Prop := fun _ _ => True.
 #[global] Instance bd_texts : Bd (list text) := trivB.
 #[global] Instance bd_tokens : Bd (list token) := trivB.
 #[global] Instance bd_optN : Bd (option N) := trivB.
-#[global] Instance bd_opt {A} (H : Bd A) : Bd (option A) | 5 := OptB H.
-#[global] Instance bd_list {A} (H : Bd A) : Bd (list A) | 5 := fun off => Forall (H off).
-#[global] Instance bd_ref {A} (H : Bd A) : Bd (A * nat) | 4 := RefB H.
-#[global] Instance bd_pair {A B} (HA : Bd A) (HB : Bd B) : Bd (A * B) | 5 := fun off x => HA off (fst x) /\ HB off (snd x).
-
-End Bound.
+#[global] Instance bd_opt {A} (H : Bd A) : Bd (option A) | 5 := fun M => OptB (H M).
+#[global] Instance bd_list {A} (H : Bd A) : Bd (list A) | 5 := fun M off => Forall (H M off).
+#[global] Instance bd_ref {A} (H : Bd A) : Bd (A * nat) | 4 := fun M => RefB (H M).
+#[global] Instance bd_pair {A B} (HA : Bd A) (HB : Bd B) : Bd (A * B) | 5 :=
+  fun M off x => HA M off (fst x) /\ HB M off (snd x).
 
 Ltac unfold_bd :=
   unfold bd, bd_ident, bd_intlit, bd_info, bd_variable, bd_expr, bd_texpr, bd_stmt, bd_vardecl, bd_paramdecl,
@@ -245,14 +246,14 @@ Lemma ebuf_adv s n : ebuf (adv s n) = ebuf s. Proof. reflexivity. Qed.
 
 Lemma Inv_comments : Inv bd_texts (p_comments toks).
 Proof.
-  intros off s r [G1 G2] Ho Hr Hb. unfold p_comments. cbn [postc].
+  intros off s r [G1 G2] Ho Hr Hb. unfold p_comments. cbn [postc]. pose proof N_pos' as HN.
   assert (Hlt : sig_at toks (pos s) < N) by (apply (sig_lt toks HE); lia).
   unfold sig_at in Hlt. repeat split; cbn [pos adv refp]; try lia. exact Hb.
 Qed.
 
 Lemma Inv_tag f : f Eof = false -> Inv bd_token (p_tag toks f).
 Proof.
-  intros Hf off s r [G1 G2] Ho Hr Hb.
+  intros Hf off s r [G1 G2] Ho Hr Hb. pose proof N_pos' as HN.
   assert (Hlt : sig_at toks (pos s) < N) by (apply (sig_lt toks HE); lia).
   pose proof (sig_at_ge toks (pos s)) as Hge.
   destruct (p_tag toks f s) as [s' t|s'|] eqn:E; cbn [postc]; [| |exact I].
@@ -408,7 +409,8 @@ Proof.
   intros Hp off s r G Ho Hr Hb. unfold p_confusable.
   apply postc_bind with (P := bd_pair H bd_info M off); [now apply Inv_info|].
   intros s1 [a inf] S1 B1 [Pa [Pi _]]. cbn [fst snd] in *. cbn [postc].
-  split; [apply St_refl, S1|]. split; [|exact Pa].
+  split; [destruct S1 as (A1 & A2 & A3); repeat split; cbn [pos refp push_err set_ebuf]; lia|].
+  split; [|exact Pa].
   unfold EB, push_err. cbn [ebuf set_ebuf]. apply Forall_app. split; [exact B1|].
   constructor; [|constructor]. unfold ErrB. cbn [e_e]. lia.
 Qed.
